@@ -55,22 +55,26 @@ class WalletCtx:
     def ref_address(self, change, index):
         return self.ref.address(0, change, index)
 
-    def own_scripts(self, change=None, upto=60):
-        """script -> (change, index) for this wallet's account-0 chains according to the reference"""
-        key = (change, upto)
+    def own_scripts(self, change=None, upto=60, accounts=(0,)):
+        """script -> (change, index) for this wallet's chains (given accounts) according to the reference"""
+        key = (change, upto, tuple(accounts))
         if key not in self._own:
             d = {}
             if self.kind == 'single':
                 d[self.ref.script()] = (0, 0)
             else:
-                for ch in ((0, 1) if change is None else (change,)):
-                    for i in range(upto):
-                        d[self.ref.script(0, ch, i)] = (ch, i)
+                for acc in (accounts if self.kind == 'hd' else (0,)):
+                    for ch in ((0, 1) if change is None else (change,)):
+                        for i in range(upto):
+                            d[self.ref.script(acc, ch, i)] = (ch, i)
             self._own[key] = d
         return self._own[key]
 
-    def own_addresses(self, upto=60):
-        return {rchain.address_for_script(self.network, s) for s in self.own_scripts(None, upto)}
+    def own_addresses(self, upto=60, accounts=(0,)):
+        key = ('addr', upto, tuple(accounts))
+        if key not in self._own:
+            self._own[key] = {rchain.address_for_script(self.network, s) for s in self.own_scripts(None, upto, accounts)}
+        return self._own[key]
 
     def reopen(self):
         from bitcoinlib.wallets import Wallet
